@@ -264,7 +264,14 @@ func (e *env) runHistory(g *group, seq []int, checkFrom int, hidx int) {
 						return fmt.Sprintf("%s: Clone(%d) has len %d cap %d", hist(), capacity, np.Len(), np.Cap())
 					})
 				}
-				e.freeze(cur, &others)
+				// a deep copy: overwriting the coefficients of the source (through Coefficients()) must not reach the clone
+				src := e.freeze(cur, &others)
+				zero := make([]*big.Int, cur.p.Len())
+				for i := range zero {
+					zero[i] = new(big.Int)
+				}
+				cur.p.Overwrite(zero)
+				src.q = zero
 			case opShallowClone:
 				np := cur.p.ShallowClone()
 				next = &obj{p: np, dt: cur.dt, known: cur.known, size: cur.size, shift: cur.shift, ownCoset: cur.ownCoset, label: "shallow clone"}
@@ -342,7 +349,7 @@ func (e *env) runHistory(g *group, seq []int, checkFrom int, hidx int) {
 }
 
 // freeze: cur stays alive as an object of its own; objects sharing its storage keep the current denotation.
-func (e *env) freeze(cur *obj, others *[]*obj) {
+func (e *env) freeze(cur *obj, others *[]*obj) *data {
 	snap := &data{q: cur.dt.q}
 	for _, o := range *others {
 		if o.dt == cur.dt {
@@ -353,6 +360,7 @@ func (e *env) freeze(cur *obj, others *[]*obj) {
 	old.dt = snap
 	old.label = "source of a copy"
 	*others = append(*others, &old)
+	return snap
 }
 
 // checkObj: the stored vector, read under the form the object reports, denotes the model polynomial; Evaluate and
